@@ -128,7 +128,10 @@ impl WorkerOut {
         }
         let dir = format!("{}/replays/{}", verif_dir(), ctx.prop);
         let _ = std::fs::create_dir_all(&dir);
-        let path = format!("{}/w{}_{}.json", dir, ctx.worker.unwrap_or(0), n);
+        // a slice run (VERIF_SLICE_NAME, e.g. "ecma") shares the directory with the main run
+        let slice = std::env::var("VERIF_SLICE_NAME").unwrap_or_default();
+        let pfx = if slice.is_empty() { String::new() } else { format!("{}_", slice) };
+        let path = format!("{}/{}w{}_{}.json", dir, pfx, ctx.worker.unwrap_or(0), n);
         let mut r = replay;
         if let Value::Object(m) = &mut r {
             m.insert("property".into(), json!(ctx.prop));
@@ -201,7 +204,9 @@ pub fn run_workers_resumable(ctx: &Ctx, max_respawns: usize) -> Agg {
     let scratch = format!("{}/scratch/{}", verif_dir(), ctx.prop);
     let _ = std::fs::remove_dir_all(&scratch);
     std::fs::create_dir_all(&scratch).unwrap();
-    let _ = std::fs::remove_dir_all(format!("{}/replays/{}", verif_dir(), ctx.prop));
+    if std::env::var("VERIF_SLICE_NAME").unwrap_or_default().is_empty() {
+        let _ = std::fs::remove_dir_all(format!("{}/replays/{}", verif_dir(), ctx.prop));
+    }
     let mut children = vec![];
     let spawn = |w: usize, append: bool| -> (usize, String, std::process::Child) {
         let out = format!("{}/w{}.json", scratch, w);
@@ -420,7 +425,12 @@ pub fn conclude(ctx: &Ctx, agg: &Agg, spec: EvidenceSpec) -> i32 {
         "violations": unknown.len(),
     });
     let _ = std::fs::create_dir_all(format!("{}/evidence", verif_dir()));
-    let path = format!("{}/evidence/{}.json", verif_dir(), ctx.prop);
+    // a slice run (second build flavour of the same check) writes beside the evidence file; the front
+    // end merges it into evidence/<prop>.json
+    let path = match std::env::var("VERIF_SLICE_OUT") {
+        Ok(p) if !p.is_empty() => p,
+        _ => format!("{}/evidence/{}.json", verif_dir(), ctx.prop),
+    };
     std::fs::write(&path, serde_json::to_string_pretty(&ev).unwrap()).unwrap();
     let stdout = std::io::stdout();
     let mut o = stdout.lock();
